@@ -502,6 +502,32 @@ fn core_grid(thorough: bool) -> Vec<Case> {
                 }
             }
         }
+        // objects that INHERIT the session's OTI (no TransferConfig::oti): the FDT then has to describe the FEC
+        // parameters at instance level (or per File, for the schemes whose parameters depend on the object)
+        {
+            let (e, b, parity) = match scheme {
+                Scheme::NoCode => (16u16, 3u16, 0u16),
+                Scheme::Raptor => (16, 64, 1), // (blocks of 2-3 symbols are refused, for the FDT instance too)
+                _ => (16, 3, 2),
+            };
+            for inband_fti in [true, false] {
+                for nobj in [1usize, 2] {
+                    for full_fdt in [true, false] {
+                        let mut s = SessSpec::basic(OtiSpec::new(scheme, e, b, parity, inband_fti));
+                        s.full_fdt = full_fdt;
+                        let mut objs = Vec::new();
+                        for j in 0..nobj {
+                            let mut o = ObjSpec::simple(if scheme == Scheme::Raptor { 64 * (j + 1) + 128 } else { 40 + 57 * j }, 70 + j as u8);
+                            o.oti = None;
+                            o.md5 = j == 0;
+                            o.location = format!("file:///inherit/obj{}.bin", j);
+                            objs.push(o);
+                        }
+                        v.push(Case { sess: s, objs, receive_once: true, fs: false, rx_variant: 0, direct: false, buf: false });
+                    }
+                }
+            }
+        }
         // many source blocks (the SBN field is 8, 16, 24 or 32 bits wide depending on the scheme)
         {
             let (e, b, len) = match scheme {
